@@ -156,6 +156,7 @@ def gen_history(rng, backend, big=False, multi=True, portable=False):
     measured = set()       # indices measured in the current segment (usable as parameter dependencies)
     for seg in range(nseg):
         seg_changed = False    # an accepted New / Del in this segment (then the program cannot follow itself)
+        seg_acc = []           # accepted events of this segment
         steps = rng.randint(0, 10 if big else 8)
         if seg == 0 and rng.random() < 0.35:
             steps = max(steps, 1)
@@ -238,6 +239,7 @@ def gen_history(rng, backend, big=False, multi=True, portable=False):
             ok, _ = spec.accepts(ev)
             if ok:
                 spec.apply(ev)
+                seg_acc.append(ev)
                 if ev["e"] in ("new", "del"):
                     seg_changed = True
                 if ev["e"] == "meas":
@@ -298,7 +300,18 @@ def gen_history(rng, backend, big=False, multi=True, portable=False):
         if 0.70 < y <= 0.80:
             # the program object that was just run, once more (a repeated fragment): it can follow itself only if it
             # neither created nor deleted a mode
-            evs.append({"e": "rerun", "follows": not seg_changed})
+            ok_rerun = True
+            if not seg_changed:
+                # the segment's effect is applied once more
+                trial = copy.deepcopy(spec)
+                for x_ in seg_acc:
+                    trial.apply(x_)
+                if fock and any(d is not None and abs(d) > MAXU for d in trial.rows):
+                    ok_rerun = False        # would leave the range the Fock cutoff represents faithfully
+                else:
+                    spec = trial
+            if ok_rerun:
+                evs.append({"e": "rerun", "follows": not seg_changed})
         elif 0.80 < y <= 0.92:
             # Program(P) for an INDEPENDENTLY built P (never run) with the same active indices as the register now
             created = len(spec.rows)
